@@ -103,6 +103,14 @@ class C12(PropBase):
             items.append({"variants": [{"k": "dict", "a": [{"k": "str"}, {"k": "int"}]}, {"k": "list", "a": {"k": "int"}}, {"k": "tuple", "a": [{"k": "int"}, {"k": "int"}]}],
                           "vals": sv, "instances": True})
             items.append(items[-1])
+        if ("clock" in sw or "zone" in sw) and rng.random() < 0.5:
+            # time-only text for date-bearing targets is placed on "today": the same text again after the
+            # day has changed must be placed on the new day (lenient spellings included - what the date
+            # parser accepts, not only what isoformat() writes)
+            pool = ["9:30", "1:2:3", "09:30:5", "1:00", "12:00", "T1200", "23:59:59.5", "0:0"]
+            tv = [(x, x) for x in rng.sample(pool, 3)]
+            items.append({"variants": [{"k": "dt"}, {"k": "date"}, {"k": "list", "a": {"k": "dt"}}], "vals": tv, "timeonly": True})
+            items.append(items[-1])
         retry = None
         if rng.random() < 0.3:
             # a small recursive class of the run's own: inputs that are refused deep inside the recursion,
@@ -145,6 +153,10 @@ class C12(PropBase):
             v, w = rng.choice(it["vals"])
             if it.get("priv") and t["k"] == "list":
                 v, w = {"$list": [copy.deepcopy(v)]}, {"$list": [copy.deepcopy(w)]}
+            if it.get("timeonly"):
+                x = hist.carry(v, rng.choice(["str", "str", "bytes"]))
+                steps.append({"id": len(steps), "t": t, "mod": rng.choice(mods), "op": "unmarshal", "x": {"$list": [x]} if t["k"] == "list" else x})
+                continue
             if it.get("literal"):
                 # unmarshal the literal text in a text carrier; results are mutated by later faults
                 steps.append({"id": len(steps), "t": t, "mod": rng.choice(mods), "op": "unmarshal", "x": hist.carry(v, rng.choice(["str", "str", "bytes", "mv"]))})
